@@ -567,6 +567,32 @@ fn exec(op: &str, args: &[Sexp]) -> Ans {
 			}
 			Ans::pass()
 		}
+		("oracle-read-spec", [t]) => {
+			let text = tr!(t.as_string());
+			let Ok(ns) = NA::read(&text.clone().into_bytes()) else { return Ans::out_of_domain() };
+			// the table is the lines in order, a later line for the same class replacing the earlier one in place
+			let mut want: IndexMap<String, Vec<String>> = IndexMap::new();
+			for line in text.lines() {
+				let f: Vec<String> = line.split('\t').map(|x| x.to_owned()).collect();
+				if f.len() != 6 { return Ans::fail("accepted_line_without_six_fields") }
+				want.insert(f[0].clone(), f);
+			}
+			if want.len() != ns.all.len() { return Ans::fail("entry_count") }
+			for ((k, f), n) in want.iter().zip(ns.all.values()) {
+				if n.class_name.as_inner() != &js(k) || n.encl_class_name.as_inner() != &js(&f[1]) || n.inner_name.as_inner() != &js(&f[4]) { return Ans::fail("names") }
+				if f[0].is_empty() || f[1].is_empty() || f[4].is_empty() { return Ans::fail("empty_name_accepted") }
+				let kind = if f[4].chars().all(|c| c.is_ascii_digit()) { 'a' } else if f[4].starts_with(|c: char| c.is_ascii_digit()) { 'l' } else { 'i' };
+				let got = match n.nest_type { NestType::Anonymous => 'a', NestType::Inner => 'i', NestType::Local => 'l' };
+				if kind != got { return Ans::fail("kind") }
+				match &n.encl_method {
+					None => if !(f[2].is_empty() || f[3].is_empty()) { return Ans::fail("method_dropped") },
+					Some(m) => if m.name.as_inner() != &js(&f[2]) || m.desc.as_inner() != &js(&f[3]) { return Ans::fail("method") },
+				}
+				let acc = if let Some(h) = f[5].strip_prefix("0x") { u16::from_str_radix(h, 16).ok() } else if let Some(b) = f[5].strip_prefix("0b") { u16::from_str_radix(b, 2).ok() } else { f[5].parse::<u16>().ok() };
+				match acc { Some(a) => if u16::from(n.inner_access) != a & 0x761F { return Ans::fail("access") }, None => return Ans::fail("access_accepted") }
+			}
+			Ans::pass()
+		}
 		("oracle-apply-spec", [m, ns]) => {
 			let ns = tr!(nests_from(ns)); let m: MM = tr!(from_sexp(m));
 			let before = m.clone();
@@ -839,7 +865,7 @@ fn gen_text(r: &mut Rng, out: &mut Out) -> String {
 	let good_access = ["0", "8", "0x1a", "0b1010", "0x761F", "65535", "+9", "0x+1f", "0b+11", "007"];
 	let bad_access = ["", "0x", "0b", "0xZZ", "65536", "-1", "+", "0b102", "0x10000", "1 ", " 1", "0X1a", "1_0"];
 	let mut broken = false;
-	for _ in 0..r.below(3) {
+	for _ in 0..*r.pick(&[0usize, 0, 0, 1, 1, 2]) {
 		let i = r.below(lines.len());
 		let mut f: Vec<String> = lines[i].split('\t').map(|x| x.to_owned()).collect();
 		let m = r.below(14);
@@ -866,8 +892,8 @@ fn gen_text(r: &mut Rng, out: &mut Out) -> String {
 	out.stats.hit(if broken { "text:malformed" } else { "text:wellformed-or-subtle" });
 	let eol = *r.pick(&["\n", "\n", "\r\n"]);
 	let mut text = lines.join(eol);
-	match r.below(6) { 0 => {}, 1 => text.push_str("\r"), 2 => { text.push_str(eol); text.push_str(eol); } _ => text.push_str(eol) }
-	if r.chance(1, 12) { text = format!("\n{text}"); }
+	match r.below(12) { 0 | 1 => {}, 2 => text.push_str("\r"), 3 => { text.push_str(eol); text.push_str(eol); } _ => text.push_str(eol) }
+	if r.chance(1, 25) { text = format!("\n{text}"); }
 	text
 }
 
@@ -924,6 +950,7 @@ fn gen(r: &mut Rng, tier: Tier, out: &mut Out) {
 		// 4. text format
 		let t = gen_text(r, out);
 		out.op("nests-read", &[Sexp::str(&t)]);
+		out.op("oracle-read-spec", &[Sexp::str(&t)]);
 	}
 	// exhaustive small scope 1: the truth table of the filter for one nest
 	for kind in ['a', 'i', 'l'] {
@@ -993,6 +1020,7 @@ fn gen(r: &mut Rng, tier: Tier, out: &mut Out) {
 	for t in ["", "\n", "a\tb\t\t\t1\t0", "a\tb\t\t\t1\t0\r", "a\tb\t\t\t1\t0\r\n", "a\tb\t\t\t1\t0\n\n", "a\tb\tm\t()V\t1Foo\t0x1a\na\tc\t\t\tFoo\t1\n",
 		"a\tb\tm\t\tFoo\t1\n", "a\tb\t\t()V\tFoo\t1\n", "a\tb\t<init>\t(\tFoo\t1\n", "a\tb\t\t\t١\t1\n"] {
 		out.op("nests-read", &[Sexp::str(t)]);
+		out.op("oracle-read-spec", &[Sexp::str(t)]);
 	}
 }
 
